@@ -25,7 +25,7 @@ REAL_VS_STUB = {'real': ['kyupy.circuit: GrowingList, IndexList, Node, Line, Cir
                 'stub': ['none (RefGraph is the reference model, not a replacement)']}
 ASSUMPTIONS = ['trailing unconnected pin slots (None at the end of a pin list) are not part of the compared state: a restore legitimately drops them',
                'substitute is checked by the invariants after the step and the model is re-synchronised from the real object (its rewiring is too rich to predict; its function preservation is C10)']
-EXPECTED_PROBES = ['shared_name', 'hole_filled_by_last', 'restore_mid_history', 'copy_mid_history', 'duplicate_name_rejected', 'explicit_pin', 'fork_squeeze', 'eliminate_spliced', 'eliminate_kept_undriven', 'substitute_done', 'substitute_ignored_input']
+EXPECTED_PROBES = ['double_remove', 'shared_name', 'hole_filled_by_last', 'restore_mid_history', 'copy_mid_history', 'duplicate_name_rejected', 'explicit_pin', 'fork_squeeze', 'eliminate_spliced', 'eliminate_kept_undriven', 'substitute_done', 'substitute_ignored_input']
 
 KINDS = ['and', 'or', 'nand', 'not', 'buf', 'xor', 'dff', 'latch', 'input', 'output', 'AOI21', 'mux21', 'DFFX1', '__const0__', 'INPUT', 'OUTPUT', 'SDFFLATCHX1', 'Put', 'DLATCH']
 OPS = ['node', 'node', 'node', 'fork', 'line', 'line', 'line', 'line', 'linex', 'linex', 'rmline', 'rmline', 'rmnode', 'gof', 'io', 'ioset', 'elim', 'subst', 'copy', 'restore', 'dup']
@@ -158,6 +158,11 @@ class Exec:
             if lo.index != len(c.lines) - 1: self.hole = True; res.probe('hole_filled_by_last')
             if m.lines[lid][0][1] and m.lines[lid][1] < len(m.nodes[m.lines[lid][0]]['outs']) - 1: res.probe('fork_squeeze')
             lo.remove()
+            if lo.circuit is not None or lo.driver is not None or lo.reader is not None:
+                res.violate('graph-removed-line-still-attached', f'step {k}: a removed line still records circuit/driver/reader')
+            if b % 4 == 0:
+                lo.remove()      # removing a stale handle again must change nothing
+                res.probe('double_remove')
             m.remove_line(lid)
             did = f'Line.remove({lid})'
         elif kind == 'rmnode':
@@ -167,6 +172,11 @@ class Exec:
             no = self.node_obj(key)
             if no.index != len(c.nodes) - 1: self.hole = True; res.probe('hole_filled_by_last')
             no.remove()
+            if no.circuit is not None:
+                res.violate('graph-removed-node-still-attached', f'step {k}: a removed node still records its circuit')
+            if b % 4 == 0:
+                no.remove()
+                res.probe('double_remove')
             m.remove_node(key)
             did = f'Node.remove({key[0]})'
         elif kind == 'gof':
